@@ -423,8 +423,14 @@ func cmdCheck(args []string) int {
 			}
 		}
 
-		// violations: confirm natively, then report
+		// violations: confirm natively, then report (several candidates may share a label: the first one
+		// that reproduces is reported, the others are skipped)
+		doneLabel := map[string]bool{}
+		pendingInconclusive := map[string]string{}
 		for _, v := range rep.Violations {
+			if doneLabel[v.Label] {
+				continue
+			}
 			cases := []nativeCase{{Harness: h.Fn, Params: params, Inputs: v.Inputs}}
 			// order/schedule dependent candidates: Go re-randomises map iteration per run, so the same
 			// inputs are replayed several times in one native process and any reproduction counts
@@ -435,14 +441,22 @@ func cmdCheck(args []string) int {
 			if strings.HasPrefix(v.Label, "panic@") {
 				tries = 3
 			}
-			if strings.HasPrefix(v.Label, "hang@") || strings.HasPrefix(v.Label, "stack@") || v.Label == "deadlock" {
+			var replayEnv []string
+			if strings.HasPrefix(v.Label, "hang@") || strings.HasPrefix(v.Label, "stack@") {
 				tries = 1
+			}
+			if v.Label == "deadlock" {
+				// a schedule-dependent hang: several short attempts, each case in its own process
+				replayEnv = []string{"VRT_TIMEOUT_S=4"}
+				if tries > 10 {
+					tries = 10
+				}
 			}
 			many := cases
 			for k := 1; k < tries; k++ {
 				many = append(many, cases[0])
 			}
-			res, err := runNative(scratch, h.Pkg, many, nil)
+			res, err := runNative(scratch, h.Pkg, many, replayEnv)
 			confirmed := false
 			detail := ""
 			for _, r := range res {
@@ -471,10 +485,11 @@ func cmdCheck(args []string) int {
 			}
 			key := h.Fn + ":" + v.Label
 			if !confirmed {
-				fmt.Printf("INCONCLUSIVE property=%s harness=%s candidate %q did not reproduce natively (%s); inputs %s engine-observed %v\n", id, h.Fn, v.Label, detail, mustJSON(v.Inputs), v.Observed)
-				totalUndec++
+				pendingInconclusive[v.Label] = fmt.Sprintf("INCONCLUSIVE property=%s harness=%s candidate %q did not reproduce natively (%s); inputs %s engine-observed %v", id, h.Fn, v.Label, detail, mustJSON(v.Inputs), v.Observed)
 				continue
 			}
+			doneLabel[v.Label] = true
+			delete(pendingInconclusive, v.Label)
 			isKnown := false
 			for _, kf := range known {
 				if kf.Property == id && strings.HasPrefix(key, kf.Key) {
@@ -493,6 +508,17 @@ func cmdCheck(args []string) int {
 			fmt.Printf("  harness=%s label=%s site=%s msg=%s inputs=%s native=%s\n", h.Fn, v.Label, v.Site, v.Msg, mustJSON(v.Inputs), detail)
 			nviol++
 			exit = 1
+		}
+		var pk []string
+		for k := range pendingInconclusive {
+			pk = append(pk, k)
+		}
+		sort.Strings(pk)
+		for _, k := range pk {
+			if !doneLabel[k] {
+				fmt.Println(pendingInconclusive[k])
+				totalUndec++
+			}
 		}
 		harnessCov = append(harnessCov, hc)
 		if rep.Undecided > 0 || rep.Unexplored > 0 {
